@@ -21,7 +21,7 @@ CLAIMS["C04"] = dict(
 
 CLAIMS["C02"] = dict(
     text="Coq theorems: compute_full yields exactly (N + S/2)/S frames of frame_length samples for N >= L/2+1 and none below; frame k is the window [kS, kS+L) of the symmetrically padded signal whose every element is x[sym N (i - pad_left)] (reflection repeated as often as needed), equal to the documented slice of the signal for each style / kaldi_shift when no padding is involved; the segment walk of _compute_frame (and of the torch port) makes tap j meet full-spectrum bin (start+j) mod D for EVERY DFT size, start bin and length, never running out of fuel; hence for complex / analytic banks the accumulated coefficient equals the sum over the full spectrum of phi(X[k] H[k]) with H rebuilt by the documented recipe (abstract commutative monoid, Hermitian-symmetric spectrum); the default frame length keeps a DFT bin strictly inside every filter's support. The energy block, the per-filter post-processing (factor 2 of real banks, log floor) and the DFT-size rule are symbolically executed from compute.py on every run (gen/stft_scalar.py) and proved equal to the documented definitions: mean square (its root unless use_power) floored AFTER the root, 2 x sum then floor/log, first power of two at or beyond frame_length (dft_size_pad_spec: minimal, < 2L, powers of two are fixed points).",
-    note="Trusted: Coq kernel; hand-written models coq/Stft/Model.v (framing) and coq/Stft/Walk.v (walk), tied to the source by Stft/Tie.v (integer expressions extracted by gen/stft.py), Stft/ScalarTie.v (scalar blocks extracted by gen/stft_scalar.py) and by exact probes (one-hot filters on a frame with half spectrum 1,2,3,.. for numpy and torch; index-coded frames); np.fft.rfft computes the DFT (Hermitian symmetry is a Section hypothesis). Float round-off is covered by the independent full-spectrum oracle only (1e-8; it derives the DFT size from the documented rule and includes quiet / silent frames on both sides of the log floor). default_length_keeps_a_bin is over R (stdlib real axioms).",
+    note="Trusted: Coq kernel; hand-written models coq/Stft/Model.v (framing) and coq/Stft/Walk.v (walk), tied to the source by Stft/Tie.v (integer expressions extracted by gen/stft.py), Stft/ScalarTie.v (scalar blocks extracted by gen/stft_scalar.py) and by exact probes (one-hot filters on a frame with half spectrum 1,2,3,.. for numpy and torch; index-coded frames); np.fft.rfft computes the DFT sum (its Hermitian symmetry for a real frame is proved in Stft/Dft.v over an abstract ring with conjugation: dft_hermitian, and the spectrum theorems are instantiated for it). Float round-off is covered by the independent full-spectrum oracle only (1e-8; it derives the DFT size from the documented rule and includes quiet / silent frames on both sides of the log floor). default_length_keeps_a_bin is over R (stdlib real axioms).",
     technique="Coq proofs (induction on the walk's fuel with a modular-arithmetic invariant; list/index algebra; cyclic re-indexing of sums) + exact vm_compute correspondence + independent numeric oracle",
 )
 
